@@ -1,0 +1,43 @@
+//go:build verif
+
+// Verification hooks: run the unexported command bodies with an injected client.
+// Compiled only with `-tags verif`; add-only, no existing line is changed.
+package canary
+
+import (
+	"k8s.io/cli-runtime/pkg/genericclioptions"
+	"sigs.k8s.io/controller-runtime/pkg/client"
+)
+
+// VerifRunPause runs the body of `kubectl-eds canary pause|unpause`.
+func VerifRunPause(c client.Client, streams genericclioptions.IOStreams, namespace, name string, pause bool) error {
+	o := newPauseOptions(streams, pause)
+	o.client = c
+	o.userNamespace = namespace
+	o.userExtendedDaemonSetName = name
+	o.args = []string{name}
+
+	return o.run()
+}
+
+// VerifRunValidate runs the body of `kubectl-eds canary validate`.
+func VerifRunValidate(c client.Client, streams genericclioptions.IOStreams, namespace, name string) error {
+	o := newValidateOptions(streams)
+	o.client = c
+	o.userNamespace = namespace
+	o.userExtendedDaemonSetName = name
+	o.args = []string{name}
+
+	return o.run()
+}
+
+// VerifRunFail runs the body of `kubectl-eds canary fail`.
+func VerifRunFail(c client.Client, streams genericclioptions.IOStreams, namespace, name string) error {
+	o := newfailOptions(streams, cmdFail)
+	o.client = c
+	o.userNamespace = namespace
+	o.userExtendedDaemonSetName = name
+	o.args = []string{name}
+
+	return o.run()
+}
